@@ -94,6 +94,37 @@ def check(ctx: Ctx) -> None:
         if not cl or unparse(cl[0].value) != "function.__closure__":
             ob.violation(f_sf, f_sf.node, "the closure test does not look at function.__closure__")
 
+    with ctx.obligation("C06.h", "purity-scan-complete") as ob:
+        # necessary condition of "non-builtin globals are rejected locally": the scan must see the names used in *nested*
+        # scopes too (lambda, nested def, comprehension, defaults).  Soundness over all programs is not claimed.
+        fg = repo.func("gateway._find_non_builtin_globals")
+        src_p, code_p = fg.params()[0], fg.params()[1]
+        walks = [c for c in repo.calls_in(fg) if unparse(c.func) == "ast.walk"]
+        whole_source = any(isinstance(c.args[0], ast.Call) and unparse(c.args[0].func) == "ast.parse" and unparse(c.args[0].args[0]) == src_p for c in walks)
+        code_only = [x for x in repo.own_nodes(fg) if isinstance(x, ast.Attribute) and unparse(x.value) == code_p and x.attr in ("co_names", "co_code")] + \
+                    [c for c in repo.calls_in(fg) if unparse(c.func) in ("dis.get_instructions", "dis.Bytecode") and c.args and unparse(c.args[0]) == code_p]
+        recurses = any(isinstance(x, ast.Attribute) and x.attr == "co_consts" for x in repo.own_nodes(fg))
+        ob.site(fg, walks[0] if walks else fg.node, "the purity scan covers the whole function source (all nested scopes)", whole_source=whole_source, code_object_only=bool(code_only))
+        if code_only and not recurses and not whole_source:
+            ob.violation(fg, code_only[0], "the purity check inspects only the outer code object: globals referenced from a lambda, nested def, comprehension or default "
+                                           "value are not seen, the function passes and fails remotely with NameError after CHANNEL_EXEC was sent")
+        elif not whole_source and not code_only:
+            raise AnalysisError("C06.h: _find_non_builtin_globals uses a scanning idiom the checker does not know")
+        if whole_source:
+            conds = []
+            for x in repo.own_nodes(fg):
+                if isinstance(x, (ast.ListComp, ast.GeneratorExp, ast.SetComp)):
+                    for g in x.generators:
+                        for i in g.ifs:
+                            conds.extend(unparse(v) for v in (i.values if isinstance(i, ast.BoolOp) and isinstance(i.op, ast.And) else [i]))
+            exempt_ok = "isinstance(node, ast.Name)" in conds and "node.id not in builtins.__dict__" in conds
+            extra = [c for c in conds if c not in ("isinstance(node, ast.Name)", "node.id not in vars", "node.id not in builtins.__dict__")]
+            if not exempt_ok or extra:
+                ob.violation(fg, fg.node, f"the purity scan exempts more than local variable names and builtins ({extra or conds})", construct=f"exemptions {extra or conds}")
+            vs = [x for x in repo.own_nodes(fg) if isinstance(x, ast.Assign) and unparse(x.targets[0]) == "vars"]
+            if not vs or "co_varnames" not in unparse(vs[0].value):
+                ob.violation(fg, fg.node, "the exempted local names are not the code object's co_varnames")
+
     with ctx.obligation("C06.b", "namespace") as ob:
         locs = [x for x in repo.own_nodes(f_ex) if isinstance(x, (ast.Assign, ast.AnnAssign)) and isinstance(x.value, ast.Dict)]
         ob.require(len(locs) == 1, "executetask: namespace dict literal not found")
